@@ -80,8 +80,9 @@ def D(p, v):
     return P.diff(p, v)
 
 
-def operator_ob(which, time, dx, r, B):
-    m = {"lap": 1, "div": dx, "veclap": dx if dx > 1 else 2, "adv": 2}[which]
+def operator_ob(which, time, dx, r, B, m_=None):
+    """m_: number of components of the vector field for the vectorial Laplacian when it differs from the dimension"""
+    m = m_ or {"lap": 1, "div": dx, "veclap": dx if dx > 1 else 2, "adv": 2}[which]
     def build():
         S = Sep("e", time, dx, r, m)
         f = {"lap": ops._laplacian_fwd, "div": ops._div_fwd, "veclap": ops._vectorial_laplacian,
@@ -113,7 +114,7 @@ def operator_ob(which, time, dx, r, B):
         return dict(fn=fn, spec=spec, canary=lambda *z: spec(*z, wrong=True),
                     inputs=[Inp("th", (1,)), Inp("t", (B, 1)), Inp("x", (B, dx))])
     nm = {"lap": "_laplacian_fwd", "div": "_div_fwd", "veclap": "_vectorial_laplacian", "adv": "_u_dot_nabla_times_u_fwd"}[which]
-    return EqObligation(f"C11/{nm}/grid_entry_equals_pointwise[t={int(time)},dx={dx},r={r},B={B}]", build, [OP + nm])
+    return EqObligation(f"C11/{nm}/grid_entry_equals_pointwise[t={int(time)},dx={dx},r={r},B={B}{'' if m_ is None else ',components=' + str(m_)}]", build, [OP + nm])
 
 
 def equation_ob(which, dx, r, B):
@@ -408,6 +409,10 @@ def obligations(tier):
                     obs.append(operator_ob("veclap", time, dx, r, B))
                 if dx == 2:
                     obs.append(operator_ob("adv", time, dx, r, B))
+    # a vector field whose number of components is not the dimension (e.g. (ux, uy, p) on a 2-D grid)
+    obs.append(operator_ob("veclap", False, 2, 1, 2, m_=3))
+    obs.append(operator_ob("veclap", True, 1, 1, 2, m_=2))
+    obs.append(operator_ob("veclap", False, 3, 1, 1, m_=2))
     for (r, B) in rB:
         obs.append(equation_ob("burgers", 1, r, B))
         obs.append(equation_ob("fisher", 1, r, B))
